@@ -9,6 +9,8 @@ import sys
 import traceback
 
 CHECKS = {
+    "C07": ("harness.checks.kvfam", "C07"),
+    "C10": ("harness.checks.kvfam", "C10"),
     "C03": [("harness.checks.storefam", "C03"), ("harness.checks.relayfam", "C03")],
     "C20": ("harness.checks.c20", "C20"),
     "C18": ("harness.checks.c18", "C18"),
